@@ -3,6 +3,7 @@ package main
 func init() {
 	props["C09"] = cfg("./c09", true, withShards(3, 16), withAssume(
 		"only the sampled bit of a new span's trace flags is asserted; other flag bits are not",
+		"unregister_in_flight: a processor that is registered or unregistered while a span is in flight is only held to 'at most once' for that span; spans are started and ended back to back there, so registration between a span's Start and its End is not judged",
 		"a parent span context with a valid trace ID but a zero span ID may or may not be treated as a parent (trace ID inherited or fresh; ParentBased dispatch not asserted)",
 		"the stock samplers' tracestate passthrough is asserted for valid parents only",
 		"the sampled share of TraceIDRatioBased(r) over 4096 hash-derived trace IDs is judged with a Bernstein bound (failure probability < 1e-15 per case) instead of a plain 6 sigma band; the threshold is not re-implemented",
